@@ -76,6 +76,11 @@ protected:
   /// Version 2: add a range of links
   void RegisterLinkIndexRange(LinkIndexRange );
 
+  /// Whether this link's entry \a i is the last one
+  /// in the Presolver's list. Only then it can be extended
+  /// without changing the order of the transformations.
+  bool IsLastRegisteredEntry(int i) const;
+
 
 private:
   ValuePresolver& value_presolver_;
@@ -136,6 +141,7 @@ public:
   /// if exists
   void AddEntry(LinkEntry be) {
     if (entries_.empty() ||
+        !IsLastRegisteredEntry(entries_.size()-1) ||
         !entries_.back().first.ExtendableBy(be.first) ||
         !entries_.back().second.ExtendableBy(be.second)) {
       entries_.push_back(be);             // Add new entry
@@ -220,6 +226,7 @@ public:
   /// if exists
   void AddEntry(LinkEntry be) {
     if (entries_.empty() ||
+        !IsLastRegisteredEntry(entries_.size()-1) ||
         !(
           (entries_.back().first==be.first   // same sources
            && entries_.back().second.TryExtendBy(be.second))
